@@ -23,10 +23,12 @@ def norm(s):
 
 
 class Runner:
-    def __init__(self, build="checked", horizon_ms=5000, no_aslr=False):
+    def __init__(self, build="checked", horizon_ms=5000, no_aslr=True):
         self.build = build
         self.horizon_ms = horizon_ms
-        self.no_aslr = no_aslr
+        # address space randomisation is off by default: outcomes of known memory-unsafe inputs then repeat from run to run
+        # (VERIF_ASLR=1 turns it back on; used when recording the failing inputs of known findings, see DESIGN.md 0.7)
+        self.no_aslr = no_aslr and os.environ.get("VERIF_ASLR") != "1"
         self.p = None
         self.restarts = 0
 
